@@ -1,0 +1,38 @@
+//go:build verif
+
+// Contracts for the bmverif deductive checker (comment-only; compiled only under -tags verif).
+// Property C08, clause (b), binary renderings: the digits exported for a number have exactly the declared width
+// whenever the value fits it, for byte strings of any length and any declared width.
+
+package bmnumbers
+
+//@ props C08
+
+// a rendering that is longer than asked for has no leading zero (the value really needs that many digits)
+//@ pred minimalOver(body string, bits int) := len(body) >= bits && (len(body) > bits ==> len(body) <= 1 || body[0] != '0')
+
+//@ func (n *BMNumber) ExportBinaryNBits(bits int) (string, error)
+//@   ensures width: result1 == nil ==> len(result) == bits && isbin(result)
+//@   assigns nothing
+//@   loop 1: invariant digits: isbin(result) && len(result) == 8 * $i
+//@   loop 2: invariant strip: isbin(result) && len(result) <= pre(len(result))
+//@   loop 3: invariant pad: isbin(result) && len(result) <= bits
+
+//@ func (n *BMNumber) ExportVerilogBinary() (string, error)
+//@   ensures prefix: result1 == nil ==> len(result) >= len(itoa(n.bits)) + 2 && sub(result, 0, len(itoa(n.bits)) + 2) == cat(itoa(n.bits), "'b")
+//@   ensures digits: result1 == nil ==> isbin(sub(result, len(itoa(n.bits)) + 2, len(result)))
+//@   ensures width: result1 == nil ==> minimalOver(sub(result, len(itoa(n.bits)) + 2, len(result)), n.bits)
+//@   assigns nothing
+//@   loop 1: invariant digits: isbin(result) && len(result) == 8 * $i
+//@   loop 2: invariant strip: isbin(result) && len(result) <= pre(len(result))
+//@   loop 3: invariant pad: isbin(result) && (pre(len(result)) >= n.bits ==> result == pre(result)) && (pre(len(result)) < n.bits ==> len(result) <= n.bits)
+//@   loop 3: invariant stripped: pre(len(result)) <= 1 || pre(result[0]) != '0'
+
+// the plain rendering has no leading zero at all
+//@ func (n *BMNumber) ExportBinary(withSize bool) (string, error)
+//@   ensures plain: result1 == nil && !withSize ==> isbin(result) && (len(result) <= 1 || result[0] != '0')
+//@   ensures sized: result1 == nil && withSize ==> len(result) >= len(itoa(n.bits)) + 4 &&
+//@             sub(result, 0, len(itoa(n.bits)) + 4) == cat(cat("0b<", itoa(n.bits)), ">")
+//@   assigns nothing
+//@   loop 1: invariant digits: isbin(result) && len(result) == 8 * $i
+//@   loop 2: invariant strip: isbin(result) && len(result) <= pre(len(result))
